@@ -73,6 +73,11 @@ func (ev *Evidence) fill(outcomes []*harnessOutcome, rp *Replayer, d time.Durati
 			stubs = append(stubs, oc.Spec.Name+": "+s)
 			assume[s] = true
 		}
+		for _, s := range oc.Spec.Ann["shadow"] {
+			t := "shadowed (replaced by the harness' stub in both the symbolic and the native run): " + s
+			stubs = append(stubs, oc.Spec.Name+": "+t)
+			assume[t] = true
+		}
 		for _, s := range oc.Spec.Ann["assume"] {
 			assume[oc.Spec.Name+": "+s] = true
 		}
